@@ -30,6 +30,8 @@ R = z3.RealSort()
 RND = z3.Function("rnd", sym.I, R)            # float(int) when it does not overflow
 INT_OF_STR = z3.Function("int_of_str", sym.ArrS, sym.I, sym.I)
 IS_INT_STR = z3.Function("is_int_str", sym.ArrS, sym.I, sym.B)   # int(s) does not raise
+STRINT_ARR = z3.Function("str_of_int_arr", sym.I, sym.ArrS)
+STRINT_LEN = z3.Function("str_of_int_len", sym.I, sym.I)
 IS_FLOAT_STR = z3.Function("is_float_str", sym.ArrS, sym.I, sym.B)   # float(s) does not raise
 FCLS_OF_STR = z3.Function("fcls_of_str", sym.ArrS, sym.I, sym.I)
 FVAL_OF_STR = z3.Function("fval_of_str", sym.ArrS, sym.I, z3.RealSort())
@@ -442,13 +444,20 @@ def install(w):
         return None
     w.float_ext = float_ext
 
+    def str_of_int_val(it, i):
+        """str(i) as a function of i, with int(str(i)) == i (so it is injective)."""
+        arr, n = STRINT_ARR(i), STRINT_LEN(i)
+        it.sadd(z3.And(n >= 1, IS_INT_STR(arr, n), INT_OF_STR(arr, n) == i))
+        return VStr(arr=arr, lo=z3.IntVal(0), hi=n)
+    w.spec_funcs["str_of_int"] = lambda it, i: str_of_int_val(it, it.as_int(i, None))
+
     def str_ext(it, v, node):
         if isinstance(v, VInt):
-            use("str(int): ValueError above the interpreter's digit limit, else a str")
+            use("str(int): a function of the int with int(str(i)) == i; ValueError above the interpreter's digit limit, else a str")
             if it.choose(2, "str(int) digit limit") == 1:
                 it.sadd(z3.Or(v.t >= 10 ** 4300, v.t <= -(10 ** 4300)))
                 it.throw(ValueError, node, "SAFE-Value")
-            return it.fresh_str("str")
+            return str_of_int_val(it, v.t)
         if isinstance(v, VDyn):
             t = v.t
             tg = sym.tag(t)
